@@ -42,6 +42,8 @@ Inductive stmt :=
 | SCall (xs : list string) (tag : string) (args : list expr)
 | SRange (x : string) (l : string) (body : list stmt)     (* for _, x := range l { body }: l is a local holding a slice, else a list cell *)
 | SForTo (i : string) (hi : expr) (body : list stmt)      (* for i := 0; i < hi; i++ { body }: hi is read once, on entry *)
+| SWhile (fuel c : expr) (body post : list stmt)         (* [init;] for ; c; post { body } with i mutated freely: at most [fuel] (read once, on
+                                                            entry) iterations; running out of fuel is the impossible result [Ret []] *)
 | SBreak
 | SCont
 | SCallP (xs : list string) (p : string) (args : list expr).   (* xs := p(args) for a function of the environment that is a fixed
@@ -111,6 +113,23 @@ Fixpoint range_loop (run_body : state -> state * ctl) (x : string) (vs : list va
       end
   end.
 
+(* for ; cond; post { body }: `continue` still runs post; out of fuel = Ret [] (no translated function returns nothing) *)
+Fixpoint while_loop (cond : state -> bool) (run_body run_post : state -> state * ctl) (n : nat) (st : state) {struct n} : state * ctl :=
+  match n with
+  | O => (st, Ret [])
+  | S n' =>
+      if cond st then
+        match run_body st with
+        | (st2, Brk) => (st2, Next)
+        | (st2, Ret w) => (st2, Ret w)
+        | (st2, _) => match run_post st2 with
+                      | (st3, Next) => while_loop cond run_body run_post n' st3
+                      | other => other
+                      end
+        end
+      else (st, Next)
+  end.
+
 Fixpoint exec_s (results : list string) (s : stmt) (st : state) {struct s} : state * ctl :=
   match s with
   | SSet x e => (set_local st x (eval e st), Next)
@@ -148,6 +167,27 @@ Fixpoint exec_s (results : list string) (s : stmt) (st : state) {struct s} : sta
                         | other => other
                         end
            end) body st') x (map (fun k => VZ (Z.of_nat k)) (seq 0 (Z.to_nat (as_z (eval hi st))))) st
+  | SWhile fu c body post =>
+      while_loop (fun st' => truthy (eval c st'))
+        (fun st' =>
+          (fix go (b : list stmt) (st : state) {struct b} : state * ctl :=
+             match b with
+             | [] => (st, Next)
+             | y :: b' => match exec_s results y st with
+                          | (st', Next) => go b' st'
+                          | other => other
+                          end
+             end) body st')
+        (fun st' =>
+          (fix go (b : list stmt) (st : state) {struct b} : state * ctl :=
+             match b with
+             | [] => (st, Next)
+             | y :: b' => match exec_s results y st with
+                          | (st', Next) => go b' st'
+                          | other => other
+                          end
+             end) post st')
+        (Z.to_nat (as_z (eval fu st))) st
   | SRange x l body =>
       range_loop (fun st' =>
         (fix go (b : list stmt) (st : state) {struct b} : state * ctl :=
